@@ -45,6 +45,18 @@ pub fn gen_pcase(c: &mut dyn Choices, max_depth: usize, full: bool) -> PCase {
   PCase { node, kinds, script, mode, threads }
 }
 
+/// to be called with the *last* picks of a case (recorded tapes keep their meaning): one script in sixteen
+/// becomes long. Returns the number of steps put in front of the original script.
+pub fn maybe_lengthen(c: &mut dyn Choices, case: &mut PCase) -> usize {
+  if c.pick(16) == 15 {
+    let old = case.script.len();
+    case.script = lengthen_script(c, &case.script);
+    case.script.len() - old
+  } else {
+    0
+  }
+}
+
 /// (non-trivial?, labels) from what the script *sends*
 pub fn script_profile(case: &PCase, tr: Option<&Trace>) -> (bool, Vec<&'static str>) {
   let n = case.kinds.len();
@@ -145,7 +157,8 @@ pub fn op_names(n: &Node) -> String {
 }
 
 fn run_case(c: &mut dyn Choices, ctx: &Ctx) -> Outcome {
-  let case = gen_pcase(c, if ctx.tier == Tier::Thorough { 5 } else { 4 }, true);
+  let mut case = gen_pcase(c, if ctx.tier == Tier::Thorough { 5 } else { 4 }, true);
+  maybe_lengthen(c, &mut case);
   let res = run_pcase(&case, false);
   let (nt, mut labels) = script_profile(&case, res.as_ref().ok());
   let mut notes = vec![];
